@@ -232,7 +232,7 @@ func PerformJoin(
 	// Sanity-check the join response to ensure that it has a create
 	// event, that the room version is known, etc.
 	authEvents := respSendJoin.GetAuthEvents().UntrustedEvents(roomVersion)
-	if err = checkEventsContainCreateEvent(authEvents); err != nil {
+	if err = checkEventsContainCreateEvent(authEvents, input.RoomID.String()); err != nil {
 		return nil, &FederationError{
 			ServerName: input.ServerName,
 			Transient:  false,
@@ -371,10 +371,14 @@ func isWellFormedJoinMemberEvent(event PDU, roomID *spec.RoomID, senderID spec.S
 	return true
 }
 
-func checkEventsContainCreateEvent(events []PDU) error {
+func checkEventsContainCreateEvent(events []PDU, roomID string) error {
 	// sanity check we have a create event and it has a known room version
 	for _, ev := range events {
 		if ev.Type() == spec.MRoomCreate && ev.StateKeyEquals("") {
+			// only the create event of the room being joined says which version that room has
+			if ev.RoomID().String() != roomID {
+				continue
+			}
 			// make sure the room version is known
 			content := ev.Content()
 			verBody := struct {
